@@ -501,10 +501,12 @@ impl Directory {
 /// This will try with the given case, and then with upper case.
 /// This will also handle empty extensions reliably.
 pub fn get_file<'a>(name: &str,files: &'a BTreeMap<String,FileInfo>) -> Option<&'a FileInfo> {
-    let mut trimmed = name.trim_end().to_string();
-    if !name.contains(".") {
-        trimmed += ".";
-    }
+    // trim base and extension separately, the way the stored (blank padded) fields are trimmed, so that a
+    // padding variant such as "A .T" finds the entry it is stored as ("A.T") and cannot be stored twice
+    let trimmed = match name.split_once('.') {
+        Some((base,ext)) => [base.trim_end(),".",ext.trim_end()].concat(),
+        None => [name.trim_end(),"."].concat()
+    };
     // the order of these attempts is significant
     if let Some(finfo) = files.get(&trimmed) {
         return Some(finfo);
